@@ -175,10 +175,12 @@ def fam_rewrite(ctx):
     pool = abstract_pool()
     memo = {}
     trees = []
-    full_to = 7  # 8427 trees; cheap enough (about 2 s) to be exhaustive in both tiers
+    full_to = 6 if ctx.quick else 7  # 1674 / 8427 trees
     for n in range(1, full_to + 1):
         trees += trees_of_size(n, 3, memo)
     n_exh = len(trees)
+    if ctx.quick:
+        trees += ctx.rng.sample(trees_of_size(7, 3, memo), 1200)
     n_rand = 400 if ctx.quick else 4000
     for _ in range(n_rand):
         trees.append(random_tree(ctx.rng, ctx.rng.randint(6, 40), ctx.rng.choice([2, 3, 3, 4, 6])))
@@ -228,6 +230,7 @@ def fam_rewrite(ctx):
     f.compare(inputs, code, model, nontriv)
     f.exhaustive = True
     f.note = (f"all trees <= {full_to} nodes over 3 atoms ({n_exh}), "
+              + ("seeded sample of 1200 7-node trees, " if ctx.quick else "")
               + f"{n_rand} random trees <= 40 nodes, OR-of-AND shapes with shared conjuncts; "
               f"rewrite fired on {sum(1 for i, x in zip(inputs, nontriv) if x and i['fn'] == 'rewrite_filters')}")
     return f
@@ -564,7 +567,7 @@ def fam_merge(ctx):
     cfgs = merge_configs(ctx)
     if ctx.quick:
         ctx.rng.shuffle(cfgs)
-        cfgs = cfgs[:700]
+        cfgs = cfgs[:450]
     reqs, code, inputs, nontriv = [], [], [], []
     cells = set()
     for cfg in cfgs:
@@ -1289,10 +1292,10 @@ def _cases(ctx, broken):
     rng.shuffle(mc)
     singles = [c for c in mc if c["shape"] == "single"]
     others = [c for c in mc if c["shape"] != "single"]
-    for c in (singles[:130] + others[:60]) if ctx.quick else mc:
+    for c in (singles[:80] + others[:35]) if ctx.quick else mc:
         cases.append({"kind": "merge", **c})
     # parquet (arrow filesystem pushes filters)
-    pt = _pred_trees(ctx, len(PQ_NAMES), 1, 30 if ctx.quick else 700)
+    pt = _pred_trees(ctx, len(PQ_NAMES), 1, 14 if ctx.quick else 700)
     for t in pt:
         cases.append({"kind": "parquet", "tree": _jsonable_tree(t), "files": rng.choice([1, 2, 3]),
                       "existing": rng.random() < 0.25, "project": rng.random() < 0.25})
